@@ -47,13 +47,15 @@ PROPS = {
     ),
     'C08': dict(
         title='Filter text and filter tree correspond',
-        verus=[('u_filter', [r'^Lexer::parse_path$', r'^Parser::to_cmp_op$', r'^Lexer::greater_or_less$', r'^parse_id$', r'^parse_literal$'])],
+        verus=[('u_filter', [r'^Lexer::parse_path$', r'^Parser::to_cmp_op$', r'^Lexer::greater_or_less$', r'^parse_id$', r'^parse_literal$']),
+               ('u_enc', [r'^Number::to_zinc$', r'^write_quoted_str$', r'^Str::to_zinc$'])],
         kani=[],
         witness=None,
         design_ref='DESIGN.md section 4, C08',
         level_text=('Proof (Verus) of the parser-side clauses only: a path token has 1 + (number of -> consumed) segments, i.e. it '
                     'ends at the first token that is not ->, and its first segment is the identifier read; to_cmp_op maps the six '
-                    'operator tokens one-to-one to the six operators and rejects everything else.'),
+                    'operator tokens one-to-one to the six operators and rejects everything else. Print side, literals only: a finite unit-less number '
+                    'literal is printed as the Display text of exactly its f64 (no detour through an integer) and a string literal as " + enc(s) + ".'),
         not_decided=('The print side: Display of every node goes through write!/core::fmt, so print-then-parse = identity cannot be '
                      'stated; literal values print through the Zinc encoder; and/or precedence shape; operator spelling clauses of '
                      'Lexer::read.'),
@@ -219,7 +221,7 @@ PROPS = {
     'C04': dict(
         title='Zinc text conforms to the Project Haystack grammar in both directions',
         verus=[('u_zparse', [r'^parse_str_escape$', r'^Lexer::read$', r'^parse_literal$', r'^parse_id$', r'^lemma_lit_run_bytes$', r'^parse_unit$', r'^is_unit_char$']),
-               ('u_enc', [r'^write_quoted_str$', r'^Str::to_zinc$', r'^Marker::to_zinc$', r'^Remove::to_zinc$', r'^Na::to_zinc$', r'^Bool::to_zinc$'])],
+               ('u_enc', [r'^write_quoted_str$', r'^Str::to_zinc$', r'^Marker::to_zinc$', r'^Remove::to_zinc$', r'^Na::to_zinc$', r'^Bool::to_zinc$', r'^Number::to_zinc$'])],
         kani=[dict(harness='k_scanner_classes', klass='complete', schema=['u8'], family=None, target='Scanner::is_* byte classes'),
               dict(harness='k_unit_char_class', klass='complete', schema=['u8'], family=None, target='zinc number::is_unit_char'),
               dict(harness='k_u8_classes', klass='complete', schema=['u8'], family=None, target='u8::is_ascii_*')],
@@ -293,7 +295,7 @@ PROPS = {
     'C01': dict(
         title='Zinc encode -> decode returns the original value',
         verus=[('u_zparse', [r'^lemma_keyword_roundtrip$', r'^Lexer::read$', r'^parse_literal$', r'^parse_str_escape$', r'^lemma_lit_run_bytes$']),
-               ('u_enc', [r'^write_quoted_str$', r'^Str::to_zinc$', r'^lemma_str_escape_inverse$', r'^Marker::to_zinc$', r'^Remove::to_zinc$', r'^Na::to_zinc$', r'^Bool::to_zinc$'])],
+               ('u_enc', [r'^write_quoted_str$', r'^Str::to_zinc$', r'^lemma_str_escape_inverse$', r'^Marker::to_zinc$', r'^Remove::to_zinc$', r'^Na::to_zinc$', r'^Bool::to_zinc$', r'^Number::to_zinc$'])],
         kani=[dict(harness='k_zinc_keywords', klass='complete', schema=['u8'], family=None, target='to_zinc of Marker/Remove/Na/Bool')],
         witness='enum:zinc-roundtrip-scalars',
         design_ref='DESIGN.md section 4, C01',
